@@ -220,6 +220,14 @@ func (x *Exec) stepGuard(st *State) (done bool) {
 			x.ensureGlobal(st, nil, e.g)
 			done = false
 		case unsupportedErr:
+			// inside a package-variable initialiser an unsupported library call
+			// (reflection, regexp compilation, ...) yields an opaque zero value
+			// instead of ending the path: the variable is still usable as an
+			// object, only that part of its content is unknown
+			if x.skipInitCall(st, e.msg) {
+				done = false
+				return
+			}
 			key := e.msg
 			x.unsupportedSeen[key]++
 			x.inconclusive("unsupported: " + e.msg + " at " + x.pos(x.curInstr) + " in " + strings.Join(x.stack(st), " <- "))
@@ -229,6 +237,34 @@ func (x *Exec) stepGuard(st *State) (done bool) {
 		}
 	}()
 	return x.step(st)
+}
+
+func (x *Exec) skipInitCall(st *State, why string) bool {
+	k := -1
+	for i := len(st.frames) - 1; i >= 0; i-- {
+		if st.frames[i].script != nil {
+			k = i
+			break
+		}
+	}
+	if k < 0 || k == len(st.frames)-1 {
+		return false
+	}
+	fr := st.frames[k]
+	if fr.pc >= len(fr.script) {
+		return false
+	}
+	call, ok := fr.script[fr.pc].(*ssa.Call)
+	if !ok {
+		return false
+	}
+	st.frames = st.frames[:k+1]
+	x.set(st, fr, call, x.zeroOf(call.Call.Signature().Results()))
+	fr.pc++
+	st.pending = nil
+	st.decided = 0
+	x.StubsHit["opaque-init:"+call.Call.Value.String()+" ("+why+")"]++
+	return true
 }
 
 func (x *Exec) raisePanic(st *State, val Value, msg string) {
